@@ -142,6 +142,14 @@ fn check_case(case: &Value, stats: &mut Stats) -> CheckResult {
     }
 }
 
+fn pair_check(case: &Value, stats: &mut Stats) -> CheckResult {
+    run_pair(case, stats, check_case)
+}
+
+fn pair_driver(ctx: &RunCtx, stats: &mut Stats, rep: &mut Reporter) {
+    half_key_driver("C10", pair_check, ctx, stats, rep)
+}
+
 pub fn property() -> Property {
     Property {
         id: "C10",
@@ -161,6 +169,16 @@ pub fn property() -> Property {
             required: &["rt_castling", "rt_double_step", "rt_en_passant", "rt_promotion", "all_20481_strings", "black_to_move"],
             regressions: &[],
             exhaustive: false,
-        }],
+        },
+            SubCheck {
+                name: "half_key_pairs",
+                driver: Driver::Custom { run: pair_driver },
+                check: pair_check,
+                configs: Configs::ReleaseOnly,
+                required: &["equal_low_half_of_the_key", "equal_high_half_of_the_key"],
+                regressions: &[],
+                exhaustive: false,
+            },
+        ],
     }
 }
